@@ -82,6 +82,19 @@ theorem strIncr_eff (h : WF db) (k : Bytes) (d now : Int) : Eff now db (strIncr 
     have := (strUpdateTx_eff h k (itoa (wrap64 (n + d))) now).1
     split <;> (rename_i he; rw [he] at this; exact this)
 
+theorem strIncrFloat_eff (h : WF db) (k : Bytes) (d : Dyadic) (now : Int) :
+    Eff now db (strIncrFloat db k d now).db := by
+  unfold strIncrFloat
+  simp only
+  split
+  · exact Eff.refl _ _
+  · exact Eff.refl _ _
+  · split
+    · split <;> exact Eff.refl _ _
+    · rename_i txt _
+      have := (strUpdateTx_eff h k txt now).1
+      split <;> (rename_i he; rw [he] at this; exact this)
+
 theorem strSetMany_eff (items : List (Bytes × Bytes)) (now : Int) :
     ∀ {db : DB}, WF db → Eff now db (strSetMany db items now).db := by
   induction items with
